@@ -165,7 +165,7 @@ fn platt_pairing<F: Scalar>(_p: &Params) {
 }
 
 // ---- real predictors: batch composition, order and layout do not matter -------------------------
-fn batches_agree<F: Scalar, T: Clone, P>(name: &str, model: &P, q: &Array2<F>, eq: impl Fn(&T, &T) -> bool)
+fn batches_agree<F: Scalar, T: Clone, P>(name: &str, model: &P, q: &Array2<F>, big: usize, eq: impl Fn(&T, &T) -> bool)
 where
     P: for<'a> Predict<&'a Array2<F>, Array1<T>> + for<'a> Predict<&'a ndarray::ArrayView2<'a, F>, Array1<T>>,
 {
@@ -203,6 +203,17 @@ where
     let empty = Array2::from_elem((0, q.ncols()), F::lit(0.0));
     let ye: Array1<T> = model.predict(&empty);
     check_bool(&format!("{}.empty batch gives no output", name), ye.is_empty());
+    // a large batch of concrete rows (code paths selected by the batch size: chunking, fast paths)
+    if big > 0 {
+        let bq = Array2::from_shape_fn((big, q.ncols()), |(r, j)| F::lit((((r * 7 + j * 3) % 11) as f64) - 5.0));
+        let yb: Array1<T> = model.predict(&bq);
+        check_bool(&format!("{}.large batch: one output per row", name), yb.len() == big);
+        for r in 0..big.min(yb.len()) {
+            let one = bq.slice(ndarray::s![r..r + 1, ..]).to_owned();
+            let y1: Array1<T> = model.predict(&one);
+            check_bool(&format!("{}.large batch: row alone == row in batch", name), y1.len() == 1 && eq(&y1[0], &yb[r]));
+        }
+    }
 }
 
 /// values of arithmetic predictors: the same term, or equal up to a relative 1e-9 (a different memory
@@ -221,6 +232,7 @@ fn real_models<F: Scalar>(p: &Params) {
     let (nq, d) = (p.u("nq", 2), p.u("d", 1));
     let b = p.get("B", 16);
     let sym_train = p.u("symtrain", 0) == 1;
+    let big = p.u("big", 0);
     // training data: concrete by default (fits divide; the property is about prediction), symbolic on request
     let nt = p.u("nt", 4);
     let conc: [[f64; 3]; 6] = [[-3.0, 1.0, 2.0], [-1.0, -2.0, 0.0], [0.0, 3.0, -1.0], [2.0, 2.0, 4.0], [3.0, -1.0, 1.0], [5.0, 0.0, -2.0]];
@@ -248,33 +260,33 @@ fn real_models<F: Scalar>(p: &Params) {
                 Ok(m) => m,
                 Err(_) => return,
             };
-            batches_agree::<F, usize, _>("kmeans", &m, &q, |a, b| a == b);
+            batches_agree::<F, usize, _>("kmeans", &m, &q, big, |a, b| a == b);
         }
         1 => {
             let m = linfa_linear::LinearRegression::default().fit(&Dataset::new(xt.clone(), yreg.clone())).expect("ols fit");
-            batches_agree::<F, F, _>("ols", &m, &q, feq::<F>);
+            batches_agree::<F, F, _>("ols", &m, &q, big, feq::<F>);
         }
         2 => {
             let m = linfa_elasticnet::ElasticNet::<F>::params().penalty(F::lit(0.25)).l1_ratio(F::lit(0.5)).max_iterations(20).fit(&Dataset::new(xt.clone(), yreg.clone())).expect("enet fit");
-            batches_agree::<F, F, _>("elasticnet", &m, &q, feq::<F>);
+            batches_agree::<F, F, _>("elasticnet", &m, &q, big, feq::<F>);
         }
         3 => {
             let m = linfa_trees::DecisionTree::<F, usize>::params().fit(&Dataset::new(xt.clone(), labels_u.clone())).expect("tree fit");
-            batches_agree::<F, usize, _>("tree", &m, &q, |a, b| a == b);
+            batches_agree::<F, usize, _>("tree", &m, &q, big, |a, b| a == b);
         }
         4 => {
             let m = linfa_bayes::GaussianNb::<F, usize>::params().fit(&Dataset::new(xt.clone(), labels_u.clone())).expect("gnb fit");
-            batches_agree::<F, usize, _>("gaussian_nb", &m, &q, |a, b| a == b);
+            batches_agree::<F, usize, _>("gaussian_nb", &m, &q, big, |a, b| a == b);
         }
         5 => {
             let xa = xt.mapv(|v| num_traits::Float::abs(v));
             let qa = q.mapv(|v| num_traits::Float::abs(v));
             let m = linfa_bayes::MultinomialNb::<F, usize>::params().fit(&Dataset::new(xa, labels_u.clone())).expect("mnb fit");
-            batches_agree::<F, usize, _>("multinomial_nb", &m, &qa, |a, b| a == b);
+            batches_agree::<F, usize, _>("multinomial_nb", &m, &qa, big, |a, b| a == b);
         }
         6 => {
             let m = linfa_svm::Svm::<F, bool>::params().linear_kernel().fit(&Dataset::new(xt.clone(), labels_b.clone())).expect("svm fit");
-            batches_agree::<F, bool, _>("svm", &m, &q, |a, b| a == b);
+            batches_agree::<F, bool, _>("svm", &m, &q, big, |a, b| a == b);
         }
         _ => {
             // multi-task elastic net: Array2 outputs, checked row by row
@@ -304,7 +316,7 @@ fn real_models<F: Scalar>(p: &Params) {
 
 /// same batch-independence obligations for predictors given as a closure from a batch (any layout) to one
 /// output vector per row
-fn batches_agree_fn<F: Scalar, T: Clone>(name: &str, q: &Array2<F>, pred: &dyn Fn(ndarray::ArrayView2<F>) -> Vec<Vec<T>>, eq: impl Fn(&T, &T) -> bool) {
+fn batches_agree_fn<F: Scalar, T: Clone>(name: &str, q: &Array2<F>, big: usize, pred: &dyn Fn(ndarray::ArrayView2<F>) -> Vec<Vec<T>>, eq: impl Fn(&T, &T) -> bool) {
     let n = q.nrows();
     let same = |a: &Vec<T>, b: &Vec<T>| a.len() == b.len() && a.iter().zip(b).all(|(x, y)| eq(x, y));
     let full = pred(q.view());
@@ -336,6 +348,16 @@ fn batches_agree_fn<F: Scalar, T: Clone>(name: &str, q: &Array2<F>, pred: &dyn F
     check_bool(&format!("{}.strided view", name), ys.len() == n && (0..n).all(|i| same(&ys[i], &full[i])));
     let empty = Array2::from_elem((0, q.ncols()), F::lit(0.0));
     check_bool(&format!("{}.empty batch gives no output", name), pred(empty.view()).is_empty());
+    if big > 0 {
+        let bq = Array2::from_shape_fn((big, q.ncols()), |(r, j)| F::lit((((r * 7 + j * 3) % 11) as f64) - 5.0));
+        let yb = pred(bq.view());
+        check_bool(&format!("{}.large batch: one output per row", name), yb.len() == big);
+        for r in 0..big.min(yb.len()) {
+            let one = bq.slice(ndarray::s![r..r + 1, ..]).to_owned();
+            let y1 = pred(one.view());
+            check_bool(&format!("{}.large batch: row alone == row in batch", name), y1.len() == 1 && same(&y1[0], &yb[r]));
+        }
+    }
 }
 
 /// predictors whose `fit` exists for primitive floats only but whose `predict` is generic: fitted on concrete
@@ -344,6 +366,7 @@ fn retyped_models<F: Scalar + serde::Serialize + serde::de::DeserializeOwned>(p:
     let which = p.u("model", 0);
     let (nq, d) = (p.u("nq", 2), p.u("d", 2));
     let b = p.get("B", 8);
+    let big = p.u("big", 0);
     let a: [[f64; 3]; 8] = [[-3.0, 1.0, 2.0], [-1.0, -2.0, 0.0], [0.0, 3.0, -1.0], [2.0, 2.0, 4.0], [3.0, -1.0, 1.0], [5.0, 0.0, -2.0], [1.0, 1.5, 0.5], [-2.0, 0.5, 3.0]];
     let nt = 8;
     let xt = Array2::from_shape_fn((nt, d), |(i, j)| a[i][j % 3]);
@@ -353,19 +376,19 @@ fn retyped_models<F: Scalar + serde::Serialize + serde::de::DeserializeOwned>(p:
         0 => {
             let m64 = linfa_reduction::Pca::params(d.min(2)).fit(&DatasetBase::from(xt.clone())).expect("pca fit");
             let m: linfa_reduction::Pca<F> = symx::to_scalar_model(&m64);
-            batches_agree_fn::<F, F>("pca", &q, &|x| rows2(m.predict(&x)), feq::<F>);
+            batches_agree_fn::<F, F>("pca", &q, big, &|x| rows2(m.predict(&x)), feq::<F>);
         }
         1 => {
             let y2 = Array2::from_shape_fn((nt, 2), |(i, k)| a[i][0] * (1.0 + k as f64) - 0.5 * a[i][1] + 0.05 * i as f64);
             let m64 = linfa_pls::PlsRegression::<f64>::params(d.min(2)).fit(&Dataset::new(xt.clone(), y2)).expect("pls fit");
             let m: linfa_pls::PlsRegression<F> = symx::to_scalar_model(&m64);
-            batches_agree_fn::<F, F>("pls_regression", &q, &|x| rows2(m.predict(&x)), feq::<F>);
+            batches_agree_fn::<F, F>("pls_regression", &q, big, &|x| rows2(m.predict(&x)), feq::<F>);
         }
         _ => {
             use linfa_clustering::GaussianMixtureModel;
             let m64 = GaussianMixtureModel::params(2).n_runs(1).max_n_iterations(20).fit(&DatasetBase::from(xt.clone())).expect("gmm fit");
             let m: GaussianMixtureModel<F> = symx::to_scalar_model(&m64);
-            batches_agree_fn::<F, usize>("gmm", &q, &|x| m.predict(&x).iter().map(|v| vec![*v]).collect(), |a, b| a == b);
+            batches_agree_fn::<F, usize>("gmm", &q, big, &|x| m.predict(&x).iter().map(|v| vec![*v]).collect(), |a, b| a == b);
         }
     }
 }
